@@ -52,6 +52,16 @@ class Sym:
             full = [d for d in ds if d[2] in ("assign", "call", "yield")]
             if len(full) != 1 or any(d[2] == "partial" for d in ds):
                 self._multi.add(l)
+        # locals borrowed mutably (directly, not through a deref): their value may
+        # change behind the single textual definition
+        self._mutb = set()
+        for blk in body.blocks:
+            for s_ in blk["stmts"]:
+                if s_["s"] == "assign" and s_["rv"]["r"] in ("ref", "rawptr") and \
+                        (s_["rv"].get("mut") or s_["rv"].get("kind") == "Mut"):
+                    pl = s_["rv"]["pl"]
+                    if not any(p[0] == "d" for p in pl["p"]):
+                        self._mutb.add(pl["l"])
 
     # ------------------------------------------------------------------
     def local(self, l, depth=0):
@@ -77,6 +87,8 @@ class Sym:
                 r = self.call(d[3], d[0], depth + 1)
             else:
                 r = ("yield",)
+            if l in self._mutb and r[0] not in ("closure",):
+                r = ("mvar", b.local_name(l) or "_%d" % l, l, r)
             self._memo[l] = r
             return r
         if not ds:
@@ -283,6 +295,8 @@ def strip_deep(t):
         return ("closure", t[1], tuple(strip_deep(a) for a in t[2]))
     if k in ("discr", "len"):
         return (k, strip_deep(t[1]))
+    if k == "mvar":
+        return ("mvar", t[1], t[2], strip_deep(t[3]))
     return t
 
 
@@ -340,8 +354,8 @@ def _strip_generics(s):
 def callee_label(t):
     info = t[3]
     tr = info.get("trait")
-    if tr and (tr.startswith("std::") or tr.startswith("core::")) and info.get("krate") in ("core", "alloc", "std"):
-        return "%s::%s" % (tr.split("::")[-1], info.get("name"))
+    if tr and (tr.startswith("std::") or tr.startswith("core::")):
+        return "%s::%s" % (_strip_generics(tr).split("::")[-1], info.get("name"))
     return short(t[1])
 
 
@@ -357,6 +371,8 @@ def render(t, depth=0):
         return "^" + t[1]
     if k == "var":
         return "$" + str(t[1])
+    if k == "mvar":
+        return "%s⟵%s" % (t[1], render(t[3], depth + 1))
     if k == "const":
         return str(t[1])
     if k == "bytes":
@@ -424,6 +440,8 @@ def walk(t):
             yield from walk(a)
     elif k == "repeat":
         yield from walk(t[1])
+    elif k == "mvar":
+        yield from walk(t[3])
 
 
 def calls_in(t):
@@ -433,3 +451,10 @@ def calls_in(t):
 def roots(t):
     """Leaf provenance of a term: params, upvars, vars, consts."""
     return [x for x in walk(t) if x[0] in ("param", "upvar", "var", "const", "cdef", "bytes")]
+
+
+def unmut(t):
+    """Initial value of a mutably-borrowed single-definition local."""
+    while t[0] == "mvar":
+        t = t[3]
+    return t
